@@ -306,6 +306,11 @@ func errorsFamily(seed uint64, tier string, args []string) {
 							c.Oracle = fmt.Sprintf("an unregistered (wrapping) error did not arrive as the generic error with code 1 and its message: %s %q %s", c.Type, e.Error(), c.Fields)
 						case (rel.name == "same" || rel.name == "codec-codes") && kind == 13 && (c.Type != "*main.dataErr" || !strings.Contains(c.Fields, fmt.Sprintf(`"payload-%d"`, n))):
 							c.Oracle = "a codec error registered under its code on both sides did not arrive as its type with the data it sent: " + c.Type + " " + c.Fields
+						case codecCode(kind, n) != 0 && e != nil && c.Type == "*jsonrpc.JSONRPCError" && !strings.Contains(c.Fields, fmt.Sprintf(`"code":%d,`, codecCode(kind, n))):
+							// whatever the server's table says: a codec-style error supplies its code itself
+							c.Oracle = fmt.Sprintf("a codec-style error supplying code %d itself arrived as the generic error without that code: %s", codecCode(kind, n), c.Fields)
+						case codecCode(kind, n) != 0 && e != nil && hasReg(rel.c, codecCode(kind, n), kind) && kind != 7 && c.Type == "*jsonrpc.JSONRPCError":
+							c.Oracle = fmt.Sprintf("a codec-style error supplying code %d itself, registered under that code by the client (server table: %v), arrived as the generic error: %s", codecCode(kind, n), rel.s, c.Fields)
 						case kind == 8 && e != nil && (c.Type != "*jsonrpc.JSONRPCError" || e.Error() != msg):
 							c.Oracle = fmt.Sprintf("unregistered error did not arrive as the generic error with its message: %s %q", c.Type, e.Error())
 						case rel.name == "same" && kind == 3 && (c.Type != "*main.marshErr" || c.Fields != fmt.Sprintf(`{"M":%s,"N":%d}`, mustQ(msg), n)):
@@ -321,6 +326,30 @@ func errorsFamily(seed uint64, tier string, args []string) {
 		}
 		ts.Close()
 	}
+}
+
+// the code a codec-style error kind supplies itself (0: not a codec kind)
+func codecCode(kind, n int) int {
+	switch kind {
+	case 4:
+		return 40 + n%3
+	case 5:
+		return 45
+	case 7:
+		return 44
+	case 13:
+		return 46
+	}
+	return 0
+}
+
+func hasReg(tab [][2]int, code, kind int) bool {
+	for _, r := range tab {
+		if r[0] == code && r[1] == kind {
+			return true
+		}
+	}
+	return false
 }
 
 func mustQ(s string) string { b, _ := json.Marshal(s); return string(b) }
